@@ -17,12 +17,15 @@ EXPLANATION = (
 NOT_DECIDED = ["traces inherent to the design (symbols declared by a failing script stay declared)"]
 
 
+REAL_KINDS = ("stmt", "test", "for", "with")     # not the pseudo nodes (except / finally entries carry the whole Try)
+
+
 def _exc_safe(cfg, risky_pred, cleanup_pred):
     """True iff from every node satisfying risky_pred, every path to the RAISE exit passes a
     cleanup node."""
     bad = []
     for n in cfg.nodes:
-        if risky_pred(n):
+        if n.kind in REAL_KINDS and risky_pred(n):
             if not cfg.must_pass(n.id, cfg.rse.id, cleanup_pred):
                 bad.append(n)
     return bad
@@ -33,7 +36,7 @@ def _exc_safe_cond(cfg, risky_pred, cleanup_pred, flag):
     exactly `flag` through its false edge are not obligations."""
     bad = []
     for n in cfg.nodes:
-        if not risky_pred(n):
+        if n.kind not in REAL_KINDS or not risky_pred(n):
             continue
         seen = set()
         stack = [n.id]
@@ -52,7 +55,7 @@ def _exc_safe_cond(cfg, risky_pred, cleanup_pred, flag):
                     continue
                 if cleanup_pred(cfg.nodes[y]):
                     continue
-                if node.kind == "test" and norm(node.ast) == flag and lab == "F":
+                if node.kind == "test" and norm(node.ast) == flag and lab in ("F", "exc:F"):
                     continue
                 stack.append(y)
         if reached:
@@ -65,70 +68,32 @@ def run(ctx):
     ctx.analysed["modules"] = ["pysmt/walkers/dag.py", "pysmt/formula.py", "pysmt/smtlib/parser/parser.py",
                                "all DagWalker subclasses overriding walk/iter_walk"]
     if ctx.want("R1"):
-        rs = ctx.rule("R1", "walker scratch state (stack, one-shot memo) restored on exception")
-        # Entry point is walk() (the only caller of iter_walk in the package, checked below).  For
-        # every DagWalker subclass that overrides walk, iter_walk or _process_stack (and DagWalker
-        # itself) resolve the three through the MRO and require: if the resolved traversal keeps its
-        # work list in self.stack, an exception leaving _process_stack reaches the function exit only
-        # through a statement that empties self.stack -- in iter_walk itself or in walk around the
-        # iter_walk call; same for the one-shot memo when walk clears it on success.
-        callers = []
-        for m in repo.modules.values():
-            for n in ast.walk(m.tree):
-                if isinstance(n, ast.Call) and attr_tail(n) == "iter_walk":
-                    from ..common import enclosing_def
-                    callers.append(enclosing_def(repo, m, n))
-        extra = [c for c in callers if c[1] != "walk"]
-        if extra:
-            rs.unrec("iter_walk is also called from %s (not analysed as entry points)" % extra)
-        classes = [DAG] + [q for q in repo.subclasses(DAG, strict=True)
-                           if any(repo.classes[q].own_func(nm) for nm in ("walk", "iter_walk", "_process_stack"))]
-        stack_clear = lambda n: n.ast is not None and n.kind == "stmt" and "self.stack" in norm(n.ast) and (
-            ".clear()" in norm(n.ast) or norm(n.ast).replace(" ", "") in ("self.stack=[]", "delself.stack[:]"))
-        memo_clear = lambda n: n.ast is not None and n.kind == "stmt" and "memoization.clear()" in norm(n.ast)
-        for q in classes:
-            wq, fw = repo.find_method(q, "walk")
-            iq, fi = repo.find_method(q, "iter_walk")
-            pq, fp = repo.find_method(q, "_process_stack")
-            if fw is None or fi is None or fp is None:
-                ctx.error("R1", "%s: walk/iter_walk/_process_stack not resolvable" % q)
+        rs = ctx.rule("R1", "a failing walk leaves no trace: handler failure injected at every call, next walks compared with a fresh walker")
+        from . import walk_deep as wd
+        res, others, _towers = wd.results(repo, ctx.tier)
+        ctx.analysed["walker_classes_interpreted"] = sorted(set(r["cls"] for r in res))
+        ctx.analysed["walker_classes_not_interpreted"] = others
+        for r in res:
+            cq, f = repo.find_method(r["cls"], "walk")
+            loc = method_loc(repo, cq, f) if f is not None else r["cls"]
+            if r["kind"] != "ok":
+                rs.unrec("%s on %s: %s" % (r["cls"], r["shape"], "; ".join(r["notes"])[:200]))
                 continue
-            uses_self_stack = any(is_self_attr(n, "stack") for f in (fi, fp) for n in ast.walk(f))
-            # only the traversal calls are modelled as raising (a handler may raise at any node);
-            # attribute reads / list operations of the walker itself are not
-            trav = lambda node: any(attr_tail(c) in ("iter_walk", "_process_stack", "_compute_node_result",
-                                                     "_push_with_children_to_stack") for c in calls_in(node))
-            cw = CFG(fw, may_raise=trav)
-            ci_ = CFG(fi, may_raise=trav)
-            risky_w = lambda n: n.ast is not None and any(attr_tail(c) == "iter_walk" for c in calls_in(n.ast))
-            risky_i = lambda n: n.ast is not None and any(attr_tail(c) == "_process_stack" for c in calls_in(n.ast))
-            if not uses_self_stack:
-                rs.ok({"class": q, "stack": "local to the traversal"})
+            if r["bad"]:
+                kinds = sorted(set(b[1] for b in r["bad"]))
+                for kd in kinds:
+                    first = [b for b in r["bad"] if b[1] == kd][0]
+                    ctx.finding(rs, "%s|stale-%s" % (r["cls"], kd),
+                                "%s on %s: %s" % (r["cls"].split(".")[-1], r["shape"], first[2]), loc)
+            elif r["injections"] == 0:
+                rs.unrec("%s on %s: no injection point reached (%s)" % (r["cls"], r["shape"], "; ".join(r["notes"])[:160]))
             else:
-                safe = (not _exc_safe(ci_, risky_i, stack_clear)) or (not _exc_safe(cw, risky_w, stack_clear))
-                if safe:
-                    rs.ok({"class": q, "stack": "emptied on exceptional exit", "walk": wq, "iter_walk": iq})
-                else:
-                    bad = _exc_safe(ci_, risky_i, stack_clear)[0]
-                    ctx.finding(rs, "%s|stack-not-restored|iter_walk@%s" % (q, iq),
-                                "an exception raised by a handler during %s.walk leaves the pending entries on "
-                                "self.stack (iter_walk of %s, walk of %s): the next walk on this walker processes "
-                                "the stale entries first" % (q.split(".")[-1], iq.split(".")[-1], wq.split(".")[-1]),
-                                method_loc(repo, iq, bad.ast))
-            clears = [n for n in ast.walk(fw) if isinstance(n, ast.Call) and attr_tail(n) == "clear"
-                      and "memoization" in norm(n.func)]
-            if not clears:
-                rs.ok({"class": q, "memo": "walk has no one-shot clearing"})
-            elif not _exc_safe_cond(cw, risky_w, memo_clear, "self.invalidate_memoization"):
-                rs.ok({"class": q, "memo": "one-shot memo cleared on exceptional exit"})
-            elif wq != q:
-                rs.ok({"class": q, "memo": "inherits walk of %s (reported there)" % wq})
-            else:
-                ctx.finding(rs, "%s|memo-not-cleared|walk@%s" % (q, wq),
-                            "%s.walk clears the one-shot memo only on success: after a failing walk the partial "
-                            "results (computed under that call's extra arguments, e.g. its substitution map) are "
-                            "reused by the next call" % wq.split(".")[-1], method_loc(repo, wq, clears[0]))
-        ctx.floor(rs, 2)
+                rs.ok({"class": r["cls"].split(".")[-1], "shape": r["shape"], "failure_points": r["injections"],
+                       "after_failure": "same handler calls and results as a fresh walker" if r["one_shot"] else
+                                        "no handler call a fresh walker would not make, same results"})
+                for nte in r["notes"]:
+                    rs.unrec("%s on %s: %s" % (r["cls"], r["shape"], nte))
+        ctx.floor(rs, 30)
 
     if ctx.want("R2"):
         rs = ctx.rule("R2", "create_node registers the node only after its type check")
